@@ -277,12 +277,55 @@ const SPECIALS: &[&str] = &[
     "\"\"\"\nblock desc\n\"\"\"\ntype Query { \"field desc\" f(\"arg desc\" a: Int): Int }",
 ];
 
+/// Explicit `schema` definitions whose root names are the default ones while some default-named
+/// type is NOT an object (the schema builds cleanly but is invalid): the serializer must not drop
+/// the explicit definition. All subsets of roots x non-object kinds x which name is the odd one.
+fn default_named_non_object_roots(ctx: &mut Ctx) {
+    let names = ["Query", "Mutation", "Subscription"];
+    let non_objects = [
+        "scalar {N}",
+        "enum {N} { A }",
+        "input {N} { a: Int }",
+        "interface {N} { a: Int }",
+        "union {N} = Obj",
+    ];
+    for mask in 1u32..8 {
+        for odd in 0..3usize {
+            for no in non_objects {
+                for list_odd_as_root in [true, false] {
+                    let mut text = String::from("type Obj { o: Int }\n");
+                    let mut roots = String::new();
+                    for (i, n) in names.iter().enumerate() {
+                        let in_mask = mask & (1 << i) != 0;
+                        if i == odd {
+                            text.push_str(&no.replace("{N}", n));
+                            text.push('\n');
+                            if list_odd_as_root && in_mask {
+                                roots.push_str(&format!(" {}: {}", n.to_lowercase(), n));
+                            }
+                        } else if in_mask {
+                            text.push_str(&format!("type {n} {{ f: Int }}\n"));
+                            roots.push_str(&format!(" {}: {}", n.to_lowercase(), n));
+                        }
+                    }
+                    if roots.is_empty() {
+                        continue;
+                    }
+                    text.push_str(&format!("schema {{{roots} }}\n"));
+                    check_case(ctx, &text, "default_named_non_object_root");
+                }
+            }
+        }
+    }
+}
+
 pub fn run(ctx: &mut Ctx) {
     let src = TextSource::new();
     if ctx.shard == 0 {
         for t in SPECIALS {
             check_case(ctx, t, "special");
         }
+        default_named_non_object_roots(ctx);
     }
     interleavings(ctx);
     // corpus (type-system part of each file)
